@@ -145,7 +145,7 @@ func ruleHandleEvent(c *Ctx) {
 		}
 		// a predicate helper: its own expression is classified through the view
 		if call, ok := v.(*ssa.Call); ok {
-			if sf := call.Call.StaticCallee(); sf != nil && t.isRepo(sf) && t.interesting(sf, 0) {
+			if sf := call.Call.StaticCallee(); sf != nil && t.isRepo(sf) && (t.interesting(sf, 0) || isParamPredicate(sf)) {
 				return nil
 			}
 		}
@@ -392,6 +392,7 @@ func ruleVersionBump(c *Ctx) {
 // reset: must request unless already resetting; flag protocol (C12.2, C12.3)
 
 func ruleResetProtocol(c *Ctx) {
+	ruleResetAccessFanout(c)
 	p := c.P
 	root := p.Fn("(*rescache.ResourceSubscription).handleResetResource")
 	if root == nil {
@@ -445,6 +446,9 @@ func ruleResetProtocol(c *Ctx) {
 			if _, isP := x.(*ssa.Parameter); isP {
 				return nil // t != nil: throttled or not
 			}
+		}
+		if t.DecidedInHelper(i) {
+			return nil
 		}
 		return []Ev{{Kind: "branch:other", Note: p.InstrPos(i)}}
 	}
@@ -530,6 +534,9 @@ func ruleResetProtocol(c *Ctx) {
 				}
 				return []Ev{{Kind: "base-is-link"}}
 			}
+			if t.DecidedInHelper(i) {
+				return nil
+			}
 			return []Ev{{Kind: "branch:other"}}
 		}
 		tr := runTrace(p, fn, sp)
@@ -556,6 +563,253 @@ func ruleResetProtocol(c *Ctx) {
 		}
 		c.check(bad == "", nm, "base resource (unless a link) and every cached query variant visited exactly once", p.Pos(fn.Pos()), fmt.Sprintf("%d paths", len(tr.Paths)), bad)
 	}
+}
+
+// DOM/reset-protocol, resource level: a reset access pattern re-checks every
+// subscriber of the resource subscription, whatever its state (a resource
+// whose get is still in flight has subscribers whose access answer may
+// already be in; skipping them would leave a revoked grant in place).
+func ruleResetAccessFanout(c *Ctx) {
+	p := c.P
+	fn := p.Fn("(*rescache.ResourceSubscription).handleResetAccess")
+	if fn == nil {
+		c.undecided("(*rescache.ResourceSubscription).handleResetAccess", "anchor", "-", "not found")
+		return
+	}
+	fSubs := p.Field("rescache.ResourceSubscription.subs")
+	reaccess := p.Method("rescache.Subscriber.Reaccess")
+	c.inst(1)
+	sp := &Spec{EdgeLimit: 2}
+	sp.Classify = func(t *Tracer, fr *Frame, in ssa.Instruction) []Ev {
+		if r, ok := in.(*ssa.Range); ok {
+			if f, _ := fieldLoad(t.Resolve(fr, r.X).V); f == fSubs {
+				return []Ev{{Kind: "range-subs"}}
+			}
+		}
+		if _, ok := isCallTo(in, reaccess); ok {
+			return []Ev{{Kind: "reaccess", Stop: true}}
+		}
+		return nil
+	}
+	sp.Branch = func(t *Tracer, fr *Frame, i *ssa.If, dir bool) []Ev {
+		if e, ok := i.Cond.(*ssa.Extract); ok {
+			if _, ok := e.Tuple.(*ssa.Next); ok {
+				if dir {
+					return []Ev{{Kind: "iter"}}
+				}
+				return nil
+			}
+		}
+		if t.DecidedInHelper(i) {
+			return nil
+		}
+		return []Ev{{Kind: "branch:other"}}
+	}
+	tr := runTrace(p, fn, sp)
+	bad := ""
+	for _, path := range tr.Paths {
+		if !hasKind(path, "range-subs") {
+			bad = "a path re-checks no subscriber (the subscriber set is not visited): " + tr.FmtPath(path)
+		}
+		if countKind(path, "iter") != countKind(path, "reaccess") {
+			bad = "a subscriber is skipped or re-checked twice: " + tr.FmtPath(path)
+		}
+	}
+	if tr.Trunc {
+		bad = "path budget exhausted"
+	}
+	c.check(bad == "", fnName(fn), "every subscriber of the resource is re-checked, whatever the state of the resource", p.Pos(fn.Pos()), fmt.Sprintf("%d paths", len(tr.Paths)), bad)
+}
+
+// DOM/answer-waiting (C07, C13): every outcome of a get response hands the
+// subscribers that wait on this request back to the caller, which answers
+// each of them (Loaded). Structural part: on every returning path of
+// processGetResponse the subscriber set of the request's own resource
+// subscription has been cloned (ranged over) before the return — there is no
+// exit that leaves the waiting subscribers without an answer.
+func ruleAnswerWaiting(c *Ctx) {
+	p := c.P
+	fn := p.Fn("(*rescache.ResourceSubscription).processGetResponse")
+	if fn == nil {
+		c.undecided("(*rescache.ResourceSubscription).processGetResponse", "anchor", "-", "not found")
+		return
+	}
+	fSubs := p.Field("rescache.ResourceSubscription.subs")
+	c.inst(1)
+	sp := &Spec{}
+	sp.Classify = func(t *Tracer, fr *Frame, in ssa.Instruction) []Ev {
+		if r, ok := in.(*ssa.Range); ok {
+			if f, base := fieldLoad(t.Resolve(fr, r.X).V); f == fSubs {
+				// of the receiver itself (rs), not of the normalised entry (nrs)
+				if b := t.Resolve(fr, base); b.V == ssa.Value(fn.Params[0]) || fr.ID == -1 {
+					return []Ev{{Kind: "clone-waiting"}}
+				}
+			}
+		}
+		if _, ok := in.(*ssa.Return); ok && fr == t.RootFr {
+			return []Ev{{Kind: "return"}}
+		}
+		return nil
+	}
+	tr := runTrace(p, fn, sp)
+	bad := ""
+	n := 0
+	for _, path := range tr.Paths {
+		if !hasKind(path, "return") {
+			continue
+		}
+		n++
+		if !hasKind(path, "clone-waiting") {
+			bad = "an exit of the get-response handler does not collect the subscribers waiting on the request: they are never told the outcome and their client requests stay unanswered: " + tr.FmtPath(path)
+		}
+	}
+	if tr.Trunc {
+		bad = "path budget exhausted"
+	}
+	c.check(bad == "" && n > 0, fnName(fn), "every outcome collects the subscribers waiting on the request", p.Pos(fn.Pos()), fmt.Sprintf("%d returning paths, each ranges over the receiver's subscriber set", n), bad)
+}
+
+// DOM/unregister (C13, C09): an entry is findable through three indexes of
+// its event subscription — base (the query-less name and the empty alias),
+// queries (its own normalised query) and links (its other aliases).
+// unregister removes it from each: the own name by base=nil or a delete on
+// queries, and every alias by base=nil for the empty alias or a delete on
+// links for the others. A missed index leaves a stale entry that later
+// subscribers are served from without any request.
+func ruleUnregister(c *Ctx) {
+	p := c.P
+	fBase := p.Field("rescache.EventSubscription.base")
+	fQueries := p.Field("rescache.EventSubscription.queries")
+	fLinks := p.Field("rescache.EventSubscription.links")
+	fn := p.Fn("(*rescache.ResourceSubscription).unregister")
+	if fn == nil {
+		// by role: the one function that deletes from the alias index
+		var cands []*ssa.Function
+		for _, g := range p.Repo {
+			if g.Parent() != nil {
+				continue
+			}
+			for _, in := range instrsOf(g) {
+				if call, ok := isBuiltinCall(in, "delete"); ok {
+					if f, _ := fieldLoad(call.Call.Args[0]); f != nil && f == fLinks {
+						cands = append(cands, g)
+						break
+					}
+				}
+			}
+		}
+		if len(cands) == 1 {
+			fn = cands[0]
+		}
+	}
+	if fn == nil {
+		c.undecided("(*rescache.ResourceSubscription).unregister", "anchor", "-", "not found")
+		return
+	}
+	fRSLinks := p.Field("rescache.ResourceSubscription.links")
+	fQuery := p.Field("rescache.ResourceSubscription.query")
+	c.inst(1)
+	sp := &Spec{}
+	sp.Classify = func(t *Tracer, fr *Frame, in ssa.Instruction) []Ev {
+		if st, ok := isStoreTo(in, fBase); ok && isNilConst(st.Val) {
+			return []Ev{{Kind: "base=nil"}}
+		}
+		if call, ok := isBuiltinCall(in, "delete"); ok {
+			switch f, _ := fieldLoad(t.Resolve(fr, call.Call.Args[0]).V); f {
+			case fQueries:
+				return []Ev{{Kind: "del-queries"}}
+			case fLinks:
+				return []Ev{{Kind: "del-links"}}
+			}
+		}
+		// a range over a slice is compiled to len + an index loop
+		if call, ok := isBuiltinCall(in, "len"); ok {
+			if f, _ := fieldLoad(t.Resolve(fr, call.Call.Args[0]).V); f == fRSLinks {
+				return []Ev{{Kind: "range-aliases"}}
+			}
+		}
+		return nil
+	}
+	sp.Branch = func(t *Tracer, fr *Frame, i *ssa.If, dir bool) []Ev {
+		b, ok := i.Cond.(*ssa.BinOp)
+		if ok && (b.Op == token.EQL || b.Op == token.NEQ) {
+			if s, isS := constString(b.Y); isS && s == "" {
+				eq := (b.Op == token.EQL) == dir
+				if f, _ := fieldLoad(b.X); f == fQuery {
+					if eq {
+						return []Ev{{Kind: "own-is-base"}}
+					}
+					return []Ev{{Kind: "own-is-query"}}
+				}
+				// the alias of the current iteration (an element of rs.links)
+				if eq {
+					return []Ev{{Kind: "alias-is-base"}}
+				}
+				return []Ev{{Kind: "alias-is-link"}}
+			}
+		}
+		// range plumbing: one "iter" per alias visited (slice range: index < len)
+		if ok && b.Op == token.LSS && dir {
+			if call, isC := b.Y.(*ssa.Call); isC {
+				if bi, isB := call.Call.Value.(*ssa.Builtin); isB && bi.Name() == "len" {
+					if f, _ := fieldLoad(t.Resolve(fr, call.Call.Args[0]).V); f == fRSLinks {
+						return []Ev{{Kind: "iter"}}
+					}
+				}
+			}
+		}
+		return nil
+	}
+	tr := runTrace(p, fn, sp)
+	bad := ""
+	for _, path := range tr.Paths {
+		switch {
+		case hasKind(path, "own-is-base") && !hasKind(path, "base=nil"):
+			bad = "the query-less entry is not removed from base: " + tr.FmtPath(path)
+		case hasKind(path, "own-is-query") && !hasKind(path, "del-queries"):
+			bad = "the query entry is not removed from queries: " + tr.FmtPath(path)
+		case !hasKind(path, "own-is-base") && !hasKind(path, "own-is-query"):
+			bad = "the entry's own name is removed without telling the query-less name (base) from a query: " + tr.FmtPath(path)
+		}
+		if !hasKind(path, "range-aliases") {
+			bad = "the aliases of the entry are not visited: " + tr.FmtPath(path)
+		}
+		it := countKind(path, "iter")
+		if it > 0 {
+			if countKind(path, "alias-is-base")+countKind(path, "alias-is-link") < it {
+				bad = "an alias is removed without telling the empty alias (kept in base) from a query alias (kept in links): the base index keeps pointing to the removed entry: " + tr.FmtPath(path)
+			}
+			// per alias kind, the matching removal follows its test
+			for k, e := range path {
+				want := ""
+				switch e.Kind {
+				case "alias-is-base":
+					want = "base=nil"
+				case "alias-is-link":
+					want = "del-links"
+				}
+				if want == "" {
+					continue
+				}
+				found := false
+				for _, e2 := range path[k+1:] {
+					if e2.Kind == want {
+						found = true
+					}
+					if e2.Kind == "iter" || e2.Kind == "alias-is-base" || e2.Kind == "alias-is-link" {
+						break
+					}
+				}
+				if !found {
+					bad = "alias test " + e.Kind + " is not followed by " + want + ": " + tr.FmtPath(path)
+				}
+			}
+		}
+	}
+	if tr.Trunc {
+		bad = "path budget exhausted"
+	}
+	c.check(bad == "", fnName(fn), "unregister clears every index the entry is findable through (base, queries, links)", p.Pos(fn.Pos()), fmt.Sprintf("%d paths", len(tr.Paths)), bad)
 }
 
 // ---------------------------------------------------------------------------
